@@ -361,4 +361,103 @@ theorem overlaysLoopE_undecided (ev : Env → ε → JVal) (env : Env) : ∀ (st
         · subst e; rw [hd] at hn; cases hn
         · exact ⟨s', hm, hn⟩
       cases b <;> exact overlaysLoopE_undecided ev env rest hr _
+
+/-! ### step order (skipIf before inputs) and availability -/
+
+theorem overlaysLoopF_of_inputsOk (ev : Env → ε → JVal) (ok : Env → ε → Bool) (env : Env) :
+    ∀ (steps : List (Step ε)),
+    (∀ s ∈ steps, skipDecision ev env s = some false → inputsOk ok env s = true) → ∀ cur,
+    overlaysLoopF ev ok env steps cur = overlaysLoopE ev env steps cur
+  | [], _, _ => rfl
+  | s :: rest, h, cur => by
+    have hr : ∀ s' ∈ rest, skipDecision ev env s' = some false → inputsOk ok env s' = true :=
+      fun s' hm => h s' (by simp [hm])
+    simp only [overlaysLoopF, overlaysLoopE]
+    cases hd : skipDecision ev env s with
+    | none => rfl
+    | some b =>
+      cases b
+      · simp only [h s (by simp) hd, if_true]; exact overlaysLoopF_of_inputsOk ev ok env rest hr _
+      · exact overlaysLoopF_of_inputsOk ev ok env rest hr _
+
+theorem overlaysLoopF_congr (ev : Env → ε → JVal) (ok ok' : Env → ε → Bool) (env : Env) :
+    ∀ (steps : List (Step ε)),
+    (∀ s ∈ steps, skipDecision ev env s = some false → inputsOk ok env s = inputsOk ok' env s) → ∀ cur,
+    overlaysLoopF ev ok env steps cur = overlaysLoopF ev ok' env steps cur
+  | [], _, _ => rfl
+  | s :: rest, h, cur => by
+    have hr : ∀ s' ∈ rest, skipDecision ev env s' = some false → inputsOk ok env s' = inputsOk ok' env s' :=
+      fun s' hm => h s' (by simp [hm])
+    simp only [overlaysLoopF]
+    cases hd : skipDecision ev env s with
+    | none => rfl
+    | some b =>
+      cases b
+      · simp only [h s (by simp) hd]
+        split
+        · exact overlaysLoopF_congr ev ok ok' env rest hr _
+        · rfl
+      · exact overlaysLoopF_congr ev ok ok' env rest hr _
+
+theorem overlaysLoopF_drop_skipped (ev : Env → ε → JVal) (ok : Env → ε → Bool) (env : Env) (s : Step ε)
+    (hs : skipDecision ev env s = some true) (post : List (Step ε)) :
+    ∀ (pre : List (Step ε)) (cur : Fields),
+    overlaysLoopF ev ok env (pre ++ s :: post) cur = overlaysLoopF ev ok env (pre ++ post) cur
+  | [], cur => by simp [overlaysLoopF, hs]
+  | p :: pre, cur => by
+    simp only [List.cons_append, overlaysLoopF]
+    cases skipDecision ev env p with
+    | none => rfl
+    | some b =>
+      cases b
+      · simp only
+        split
+        · exact overlaysLoopF_drop_skipped ev ok env s hs post pre _
+        · rfl
+      · exact overlaysLoopF_drop_skipped ev ok env s hs post pre _
+
+theorem overlaysLoopF_failing_inputs (ev : Env → ε → JVal) (ok : Env → ε → Bool) (env : Env) :
+    ∀ (steps : List (Step ε)),
+    (∃ s ∈ steps, skipDecision ev env s = some false ∧ inputsOk ok env s = false) → ∀ cur,
+    overlaysLoopF ev ok env steps cur = none
+  | [], h, _ => by obtain ⟨s, hm, _⟩ := h; simp at hm
+  | s :: rest, h, cur => by
+    simp only [overlaysLoopF]
+    cases hd : skipDecision ev env s with
+    | none => rfl
+    | some b =>
+      by_cases hfail : b = false ∧ inputsOk ok env s = false
+      · obtain ⟨hb, hi⟩ := hfail
+        subst hb; simp [hi]
+      · have hr : ∃ s' ∈ rest, skipDecision ev env s' = some false ∧ inputsOk ok env s' = false := by
+          obtain ⟨s', hm, hd', hi'⟩ := h
+          simp only [List.mem_cons] at hm
+          rcases hm with e | hm
+          · subst e
+            rw [hd] at hd'
+            injection hd' with hb
+            exact absurd ⟨hb, hi'⟩ hfail
+          · exact ⟨s', hm, hd', hi'⟩
+        cases b
+        · simp only
+          split
+          · exact overlaysLoopF_failing_inputs ev ok env rest hr _
+          · rfl
+        · exact overlaysLoopF_failing_inputs ev ok env rest hr _
+
+theorem allAvailable_none {α : Type} : ∀ (l : List (Option α)), none ∈ l → allAvailable l = none
+  | [], h => by simp at h
+  | none :: _, _ => rfl
+  | some a :: rest, h => by
+    have : none ∈ rest := by simpa using h
+    simp [allAvailable, allAvailable_none rest this]
+
+theorem allAvailable_some {α : Type} : ∀ (l : List (Option α)) (xs : List α),
+    allAvailable l = some xs → l = xs.map some
+  | [], xs, h => by simp [allAvailable] at h; subst h; rfl
+  | none :: _, _, h => by simp [allAvailable] at h
+  | some a :: rest, xs, h => by
+    simp only [allAvailable, Option.map_eq_some_iff] at h
+    obtain ⟨ys, hy, rfl⟩ := h
+    simp [allAvailable_some rest ys hy]
 end Koreo.Overlay
